@@ -5,6 +5,8 @@ to the files it touches, on a scratch worktree (VERIF_REPO). Anything but exit 0
 demands more than the property states (fix the check) or the change is not property-preserving after all (say why in
 meta.json "verdict"). Writes /verif/benign/RESULTS.md when run over all."""
 import os, re, subprocess, sys, json, concurrent.futures as cf
+import os as _os
+VERIF_HOME = _os.environ.get("VERIF_HOME") or _os.path.dirname(_os.path.dirname(_os.path.abspath(__file__)))
 sys.path.insert(0, os.path.dirname(__file__))
 FILES = {
     "pkg/collector/process.go": ["C03", "C04", "C17", "C10", "C11", "C01", "C12"],
@@ -26,7 +28,7 @@ FILES = {
     "pkg/registry/registry.go": ["C17", "C01", "C04"],
     "cmd/collector/collector.go": ["C20"],
 }
-tier, d = sys.argv[1], "/verif/benign"
+tier, d = sys.argv[1], VERIF_HOME + "/benign"
 names = sys.argv[2:] or sorted(n for n in os.listdir(d) if os.path.exists(os.path.join(d, n, "patch.diff")))
 def one(n):
     patch = os.path.join(d, n, "patch.diff")
@@ -37,7 +39,7 @@ def one(n):
     for f in touched:
         for c in FILES.get(f, []) + (["C19"] if "kafka" in f else []):
             if c not in checks: checks.append(c)
-    r = subprocess.run(["/verif/tools/benign_try.sh", patch, n, tier] + checks, stdout=subprocess.PIPE, stderr=subprocess.STDOUT, text=True)
+    r = subprocess.run([VERIF_HOME + "/tools/benign_try.sh", patch, n, tier] + checks, stdout=subprocess.PIPE, stderr=subprocess.STDOUT, text=True)
     return n, r.stdout
 rows = []
 with cf.ThreadPoolExecutor(int(os.environ.get("BEN_PAR", "3"))) as ex:
